@@ -31,7 +31,7 @@
 #include <sys/wait.h>
 #include <sys/time.h>
 
-#define VD_NSIG		512
+#define VD_NSIG		4096
 #define VD_SIGLEN	200
 #define VD_NCNT		48
 #define VD_KEEP		3	/* violation lines printed per signature and worker */
